@@ -427,3 +427,43 @@ Proof.
   - destruct (one_result_per_put _ _ _ H Q) as [A _]. apply A. rewrite Hp. apply in_or_app. right. now left.
   - eapply cancel_newest_never_cancelled; eassumption.
 Qed.
+
+(* ---------- 'start' mode: every event starts its own run ---------- *)
+Lemma start_step_count c s x s' i :
+  o_mode c = MStart -> PInv s -> ostep_do c s x = Some s' ->
+  (cnt i (q s) + cnt i (puts_of [x]) = cnt i (starts_of [x]) + cnt i (q s'))%nat.
+Proof.
+  intros Hm [HC HU] H. apply step_inv in H.
+  destruct H as [t id _ _ _ | | | t id rest _ _ _ Hn _ _ | t id _ _ _ _ Hin | | | t id h2 rest _ _ Hc _ _ | ];
+    cbn [q upd puts_of starts_of]; rewrite ?cnt_nil, ?cnt_app, ?cnt_cons, ?cnt_nil; try lia; try congruence.
+  - (* start *)
+    rewrite cnt_remn. rewrite Nat.eqb_sym. destruct (Nat.eqb i id) eqn:E.
+    + apply Nat.eqb_eq in E. subst i. apply cnt_pos_in in Hin.
+      specialize (HC id). specialize (HU id). lia.
+    + lia.
+Qed.
+
+Lemma start_run_count c xs : forall s s' i,
+  o_mode c = MStart -> PInv s -> orun c s xs = Some s' ->
+  (cnt i (q s) + cnt i (puts_of xs) = cnt i (starts_of xs) + cnt i (q s'))%nat.
+Proof.
+  induction xs as [|x r IH]; intros s s' i Hm HP.
+  - cbn [orun puts_of starts_of]. intros H; inversion H; subst. rewrite !cnt_nil. lia.
+  - cbn [orun]. destruct (ostep_do c s x) as [s1|] eqn:E; [|discriminate]. intros H.
+    pose proof (start_step_count _ _ _ _ i Hm HP E) as A.
+    pose proof (IH s1 s' i Hm (step_PInv _ _ _ _ HP E) H) as B.
+    rewrite starts_cons, puts_cons, !cnt_app. lia.
+Qed.
+
+(* in 'start' mode every accepted put starts exactly one run, and nothing else is started *)
+Theorem start_mode_every_event_runs c xs s :
+  o_mode c = MStart -> orun c ostate0 xs = Some s -> quiescent s = true ->
+  forall id, cnt id (starts_of xs) = cnt id (puts_of xs) /\ (cnt id (puts_of xs) <= 1)%nat.
+Proof.
+  intros Hm H Q id. pose proof (start_run_count c xs ostate0 s id Hm PInv0 H) as A.
+  unfold quiescent in Q. destruct (q s) eqn:Eq; [|discriminate].
+  cbn [q ostate0] in A. rewrite !cnt_nil in A. split; [lia|].
+  destruct (run_PInv _ _ _ _ PInv0 H) as [_ HU]. specialize (HU id).
+  destruct (run_lists _ _ _ _ H) as [Hs _]. simpl in Hs. rewrite app_nil_r in Hs.
+  rewrite Hs, cnt_rev in HU. exact HU.
+Qed.
